@@ -11,6 +11,7 @@ import (
 	"verif/internal/cat"
 	"verif/internal/gen"
 	"verif/internal/harness"
+	"verif/internal/hostile"
 	"verif/internal/spec"
 )
 
@@ -389,4 +390,21 @@ func TestHeaders(t *testing.T) {
 		}
 	}
 	harness.Exhaustive("classifier-headers", fmt.Sprintf("%d length-field values x all 256 function codes x 4 protocol ids x both flags (bodies completed for lengths <= 300 and a 1%% sample)", len(lengths)), n)
+}
+
+// TestCrossFramingRequests: encodable TCP requests whose first eight bytes are at the same time a CRC-valid RTU request frame
+// (transaction id = RTU unit and function, protocol id = RTU address 0, length 6 = RTU quantity, TCP unit and function = the RTU CRC):
+// all such headers for functions 1..6, found by search. They are ordinary Modbus TCP requests and must be classified as such.
+func TestCrossFramingRequests(t *testing.T) {
+	n := 0
+	for i, fr := range hostile.TCPRequestLookingLikeRTU([4]byte{0, 1, 0, 1}) {
+		if !harness.Mine(i + 1) {
+			continue
+		}
+		r := spec.Req{FC: fr[7], Unit: fr[6], Tx: uint16(fr[0])<<8 | uint16(fr[1]), Addr: 1, Qty: 1, Value: 0xFF00}
+		n++
+		if !chkPrefix.Eval(t, prefixCase{Req: r}) {
+			return
+		}
+	}
 }
